@@ -501,7 +501,7 @@ pub fn recursion_cases() -> Vec<(String, Vec<(String, String)>, i64, &'static st
         ("mutual-through-two-includes", vec![("lib.txt".into(), "{% component A(n) %}{{ n }},{% if n > 0 %}{% include \"toB.txt\" %}{% endif %}{% endcomponent A %}{% component B(n) %}{{ n }},{% if n > 0 %}{% include \"toA.txt\" %}{% endif %}{% endcomponent B %}".into()), ("toB.txt".into(), "{% include \"toB2.txt\" %}".into()), ("toB2.txt".into(), "{{ <B n={ n - 1 } /> }}".into()), ("toA.txt".into(), "{{ <A n={ n - 1 } /> }}".into()), ("main.txt".into(), "{{ <A n={ n } /> }}".into())]),
     ];
     for (label, tpls) in shapes {
-        for (n, class) in [(0i64, "ok"), (1, "ok"), (5, "ok"), (14, "ok"), (17, "either"), (19, "either"), (20, "either"), (25, "either"), (40, "err"), (200, "err"), (100_000, "err")] {
+        for (n, class) in [(0i64, "ok"), (1, "ok"), (5, "ok"), (14, "ok"), (17, "either"), (19, "either"), (20, "either"), (25, "either"), (40, "either"), (100, "either"), (300, "err"), (100_000, "err")] {
             v.push((format!("{label} n={n}"), tpls.clone(), n, class));
         }
     }
@@ -564,7 +564,7 @@ pub fn worker(w: &WorkerArgs) -> i32 {
 }
 
 pub fn run(rep: &Report) {
-    rep.set_rule("sets: 1-4 generated component definitions (typed / untyped parameters, literal defaults of every kind incl. none, inferred types, ...rest, dotted names, spread over three files) whose bodies print every parameter, rest, body, observation points over the caller's whole name pool, and call earlier components or include a template; a main template and an included template calling them inline, with a body, in a loop and in a capture, with named, shorthand and spread attributes whose values are literals of every kind or caller variables (right and wrong for the declared or inferred type, missing, extra); caller render context, global context, assignments and loop variables share names with the parameters. Oracle: reference binder + interpreter on a fresh scope (exact text or error); render_component through the API with and without body, both autoescape flags, against the same binder. Priority family: component C defined in files under no prefix / two fallback prefixes / an unrelated directory, all orders of the prefix list: highest-priority definition wins, equal priority is rejected. Recursion family (worker subprocess, 8 MiB stack): direct, mutual, through an include, through a body, in a loop and capture, with depth 0..100000 and unbounded: depth <= 14 renders the exact text, >= 40 or unbounded returns an error, in between either. Non-trivial: a render that reaches at least one component call; distinct by (sources, context).");
+    rep.set_rule("sets: 1-4 generated component definitions (typed / untyped parameters, literal defaults of every kind incl. none, inferred types, ...rest, dotted names, spread over three files) whose bodies print every parameter, rest, body, observation points over the caller's whole name pool, and call earlier components or include a template; a main template and an included template calling them inline, with a body, in a loop and in a capture, with named, shorthand and spread attributes whose values are literals of every kind or caller variables (right and wrong for the declared or inferred type, missing, extra); caller render context, global context, assignments and loop variables share names with the parameters. Oracle: reference binder + interpreter on a fresh scope (exact text or error); render_component through the API with and without body, both autoescape flags, against the same binder. Priority family: component C defined in files under no prefix / two fallback prefixes / an unrelated directory, all orders of the prefix list: highest-priority definition wins, equal priority is rejected. Recursion family (worker subprocess, 8 MiB stack): direct, mutual, through an include, through a body, in a loop and capture, with depth 0..100000 and unbounded: depth <= 14 renders the exact text, >= 300 or unbounded returns an error, in between either (the limit itself is not documented). Non-trivial: a render that reaches at least one component call; distinct by (sources, context).");
     rep.assume("not specified, therefore discarded: an attribute whose value is undefined, an explicit `body` attribute, spread of a map with non-string keys; defaults are non-negative literals (the lexer has no negative literals)");
     for k in rep.known.clone() {
         if let Some(Err(f)) = replay(rep, &k.repro) {
@@ -586,7 +586,7 @@ pub fn run(rep: &Report) {
         }
         rep.fail(Fail::new("C05/recursion-not-bounded", format!("{label}: worker {desc}"), json!({"kind": "recursion", "label": label, "templates": tpls, "n": n})));
     });
-    for (lab, min) in [("render:ok", 50_000), ("render:error", 50_000), ("api:render_component", 400_000), ("api:render_component-ok", 80_000), ("sig:default", 80_000), ("sig:typed", 80_000), ("sig:inferred-type", 40_000), ("sig:rest", 80_000), ("priority:resolved-among-several", 2_000), ("priority:duplicate-rejected", 2_000), ("recursion:ok", 20), ("recursion:err", 20)] {
+    for (lab, min) in [("render:ok", 50_000), ("render:error", 50_000), ("api:render_component", 400_000), ("api:render_component-ok", 80_000), ("sig:default", 80_000), ("sig:typed", 80_000), ("sig:inferred-type", 40_000), ("sig:rest", 80_000), ("priority:resolved-among-several", 2_000), ("priority:duplicate-rejected", 2_000), ("recursion:ok", 20), ("recursion:err", 14)] {
         rep.floor(lab, min);
     }
 }
